@@ -322,7 +322,9 @@ func ignoreOf(world map[string]any) (pats []string, none bool) {
 // files next to the root and the accounts directory.  The exact places a leaving path would land on (W/x, W/abs,
 // config/x.yaml, ../x, ../../x) stay free here; the request's `occ` flag decides whether they are occupied (a leaving
 // read needs something to read, a leaving create needs the place to be free).
-func newSandbox(world map[string]any, canaries bool) (*sandbox, error) { return newSandboxUR(world, canaries, false) }
+func newSandbox(world map[string]any, canaries bool) (*sandbox, error) {
+	return newSandboxUR(world, canaries, false)
+}
 
 // newSandboxUR: with userRoot the requester's account ("admin") is confined to its own file root W/userroot (the
 // world's tree is built there); the server-wide W/root is then OUTSIDE for this client and carries canaries under
